@@ -242,13 +242,14 @@ def expected_derived(spec, d):
     how = d["how"]
     fam = spec["family"]
     if how == "with_limits":
-        if fam == "loggaussian":       # Prior.with_limits calls cls(lower_limit=, upper_limit=): mean, sigma missing
-            return spec, spec, "TypeError"
+        # since d755794: a prior of the same class (same mean / sigma) built by its constructor from the tightened limits
         a, b = unhex(d["a"]), unhex(d["b"])
-        gate = dict(spec)
-        gate["lo"] = hexf(pymax(a, unhex(spec["lo"])))
-        gate["hi"] = hexf(pymin(b, unhex(spec["hi"])))
-        return spec, gate, None
+        new = dict(spec)
+        new["lo"] = hexf(pymax(a, unhex(spec["lo"])))
+        new["hi"] = hexf(pymin(b, unhex(spec["hi"])))
+        if not unhex(new["lo"]) < unhex(new["hi"]):
+            return spec, spec, "PriorException"
+        return new, new, None
     if how == "cls_with_limits":
         a, b = unhex(d["a"]), unhex(d["b"])
         if fam == "gaussian":
@@ -275,6 +276,13 @@ def gen_derived(rng, spec):
             a, b = lo + f1 * (hi - lo), lo + f2 * (hi - lo)
             if not pymax(a, lo) < pymin(b, hi):
                 a, b = lo + 0.25 * (hi - lo), lo + 0.5 * (hi - lo)
+        elif fam == "loggaussian":
+            m, sg = unhex(spec["mean"]), unhex(spec["sigma"])
+            z1, z2 = sorted([rng.uniform(-3, 3), rng.uniform(-3, 3)])
+            ex = lambda y: math.exp(y) if y < 700 else INF
+            a, b = ex(m + z1 * sg), ex(m + z2 * sg)
+            if not pymax(a, lo) < pymin(b, hi):          # sometimes an empty intersection: the constructor must refuse it
+                a, b = (a, b) if rng.random() < 0.3 else (lo, hi)
         else:
             a, b = 0.5, 2.0
         d["a"], d["b"] = hexf(a), hexf(b)
@@ -402,9 +410,21 @@ def gen_cases(ctx):
     ]
     for spec, shape, extra in fixed:
         cases.append(fixed_case(rng, spec, shape, n_units, extra))
+        if shape in PINS:
+            cases[-1]["pin"] = PINS[shape]
     c = {"kind": "prior", "prior": {"family": "uniform", "lo": hexf(0.0), "hi": hexf(1.0)}, "shape": "derived:with_limits",
          "derived": {"how": "with_limits", "a": hexf(0.2), "b": hexf(0.4)}}
     c["msg_prior"], c["gate_prior"], _ = expected_derived(c["prior"], c["derived"])
+    c["obs"] = gen_obs(rng, c["msg_prior"], c["gate_prior"], n_units)
+    for u in (0.3, 0.5):
+        c["obs"].insert(0, {"t": "value", "u": hexf(u), "ignore": False, "kw": False})
+        c["obs"].insert(0, {"t": "raw", "u": hexf(u)})
+    c["pin"] = "with-limits-keeps-message"
+    cases.append(c)
+    lg = {"family": "loggaussian", "mean": hexf(0.5), "sigma": hexf(1.5), "lo": hexf(0.1), "hi": hexf(30.0)}
+    c = {"kind": "prior", "prior": lg, "shape": "derived:with_limits", "derived": {"how": "with_limits", "a": hexf(0.5), "b": hexf(2.0)},
+         "pin": "with-limits-keeps-message"}
+    c["msg_prior"], c["gate_prior"], _ = expected_derived(lg, c["derived"])
     c["obs"] = gen_obs(rng, c["msg_prior"], c["gate_prior"], n_units)
     cases.append(c)
     for fam in FAMILIES:
@@ -420,10 +440,11 @@ def gen_cases(ctx):
 # prior was derived), never from the outcome.  Each known finding matches exactly one class.
 # ---------------------------------------------------------------------------
 
-CL_RATIO = "loguniform-ratio-not-finite"
+# former findings, repaired in /repo: their pinned cases (shape -> signature) must now pass without any oracle failure
+PINS = {"many-decimals": "uniform-round-after-limit-check", "zero-based-tiny": "uniform-round-after-limit-check",
+        "overflow": "uniform-round-after-limit-check", "ratio-overflow": "loguniform-ratio-overflow"}
 CL_TAIL = "normal-lower-tail-cancellation"
 CL_LASTBIT = "last-bit-neighbours"
-CL_WITHLIMITS = "with-limits-instance-method"
 TAIL_U = 6e-8          # below this the absolute resolution 2^-54 of `1 - 2.0*(1.0 - unit)` exceeds 1e-9 relative
 
 
@@ -439,12 +460,8 @@ def ratio_overflows(spec):
 
 def input_classes(c, msg, u=None):
     out = []
-    if ratio_overflows(msg):
-        out.append(CL_RATIO)
     if msg["family"] in ("gaussian", "loggaussian") and u is not None and 0.0 < u < TAIL_U:
         out.append(CL_TAIL)
-    if c.get("derived", {}).get("how") == "with_limits":
-        out.append(CL_WITHLIMITS)
     return out
 
 
@@ -629,10 +646,10 @@ def oracle_prior(c, r):
     mlo, mhi = unhex(msg["lo"]), unhex(msg["hi"])                  # parameters of the message
     mean, sigma = unhex(msg.get("mean", 0.0)), unhex(msg.get("sigma", 1.0))
     # the distribution the prior DECLARES: its class with its own parameters / limits
-    decl = Decl(gate if (how == "with_limits" and fam == "uniform") else msg)
+    decl = Decl(msg)
     mdecl = Decl(msg)
     width = mhi - mlo
-    ratio_bad = ratio_overflows(msg)
+    ldec = (math.log10(mhi) - math.log10(mlo)) if fam == "loguniform" else None     # decades, finite for every finite range
     # derived priors: the object must carry the parameters the harness expects
     d = r.get("described", {})
     exp_cls = {"uniform": "UniformPrior", "loguniform": "LogUniformPrior", "gaussian": "GaussianPrior", "loggaussian": "LogGaussianPrior"}[fam]
@@ -648,8 +665,8 @@ def oracle_prior(c, r):
     # the cdf at a limit is clamped inside a window of 1e-14 around 0 / 1; when the conditioning of
     # (log10 x - shift) / scale is worse than that window (very narrow log-uniform ranges) unit values at the limits
     # are not required to land in [0, 1]
-    narrow = fam == "loguniform" and not ratio_bad and \
-        9e-16 * (2 + abs(math.log10(mlo)) + abs(math.log10(mhi))) / math.log10(mhi / mlo) > 5e-15
+    narrow = fam == "loguniform" and \
+        9e-16 * (2 + abs(math.log10(mlo)) + abs(math.log10(mhi))) / ldec > 5e-15
     wide_uniform = fam == "uniform" and not math.isfinite(width)
     for o, x in zip(c["obs"], r["obs"]):
         t = o["t"]
@@ -690,11 +707,7 @@ def oracle_prior(c, r):
             elif fam == "loguniform":
                 if not v > 1e-300:                     # subnormal results carry few bits
                     continue
-                if ratio_bad:
-                    tol = 1.01e-14
-                else:
-                    dec = math.log10(mhi / mlo)
-                    tol = 1.01e-14 + 9e-16 * (2 + abs(math.log10(mlo)) + abs(math.log10(mhi))) / dec
+                tol = 1.01e-14 + 9e-16 * (2 + abs(math.log10(mlo)) + abs(math.log10(mhi))) / ldec
             elif fam == "gaussian":
                 tol = 1e-15 + 1e-13 * min(u, 1 - u) + 1e-15 * (abs(v) + abs(mean)) / sigma
             else:
@@ -704,7 +717,7 @@ def oracle_prior(c, r):
             # nan = the recomputed unit argument fell outside the clamp window [-1e-14, 1+1e-14] of transform.ndtri; that is
             # within the conditioning error of the computation when u is this close to an end (narrow log-uniform ranges)
             cond = tol - 1.01e-14
-            if math.isnan(w) and fam == "loguniform" and not ratio_bad and (u + cond > 1 + 1e-14 or u - cond < -1e-14):
+            if math.isnan(w) and fam == "loguniform" and (u + cond > 1 + 1e-14 or u - cond < -1e-14):
                 continue
             if not abs(w - u) <= tol:
                 F.add("inverse", "unit_value_for(value_for(%r)) = %r (value %r), off by %.3g > %.3g" % (u, w, v, abs(w - u), tol), cls(u))
@@ -730,7 +743,7 @@ def oracle_prior(c, r):
             l, uu = unhex(o["l"]), unhex(o["u"])
             # the unit value the draw should use, from the declared cdf of the limits (bounded families: the documented
             # window [1e-14, 1 - 1e-14]) and the library's own random number
-            if fam in ("uniform", "loguniform") and how != "with_limits":
+            if fam in ("uniform", "loguniform"):
                 lul, uul = 1e-14, 1 - 1e-14
             elif fam == "uniform" and wide_uniform:
                 lul, uul = 0.0, 1.0
@@ -791,7 +804,7 @@ def oracle_prior(c, r):
         u = unhex(uh)
         if 0.0 < u < 1.0 and uh not in val_at:
             mm = mdecl.mismatch(raw_at.get(uh, v) if fam == "uniform" else v, u)
-            if mm and how != "with_limits":
+            if mm:
                 F.add("quantile", "value_for(%r, ignore): %s" % (u, mm), cls(u))
     # monotone in the unit value (message values and returned values)
     for name, table, rounded in (("message value", raw_at, False), ("returned value", val_at, True),
@@ -965,8 +978,10 @@ def run(ctx):
         "the property oracle compares with stdlib references (statistics.NormalDist, math.erfc); it demands a RETURN whenever the "
         "declared quantile lies inside the limits (unit margin 1e-9 relative + 2.3e-16 above 6e-8), compares tails in score "
         "space relative to |z|, and demands that random() does not raise on a non-empty unit window; a search aid, not evidence",
-        "UniformPrior.value_for is modelled as repaired in 9c8aefe (code_variant = Repaired); the theorems named "
-        "C02_before_fix_* describe the code before that commit and are kept as the record of the finding",
+        "UniformPrior.value_for is modelled as repaired in 9c8aefe (code_variant = Repaired), LogUniformPrior's scale as "
+        "repaired in e638353 (loguniform_variant = LURatioGuard), with_limits as an ordinary constructor call since d755794; "
+        "the theorems named C02_before_fix_* and the Witness examples named *_legacy* describe the code before those commits "
+        "and are kept as the record of the findings; obligations regression:* fail if a repaired behaviour regresses",
     ]
     built = ctx.build()
     cases = gen_cases(ctx)
@@ -986,6 +1001,7 @@ def run(ctx):
         for k, res in enumerate(out["results"]):
             results[ci + k * len(chunks)] = res
     coq_cases, coq_idx = [], []
+    pin_fail = []
     for i, (c, r) in enumerate(zip(cases, results)):
         kind = c["kind"] if c["kind"] == "vector" else c["prior"]["family"]
         ctx.count_case(case_key(c), nontrivial(c), kind)
@@ -1002,13 +1018,12 @@ def run(ctx):
         ro = r["ok"]
         if "ctor_exc" in ro:
             if ro["ctor_exc"] == c.get("expect_ctor_exc"):
-                # LogGaussianPrior.with_limits cannot build the prior at all (part of the with_limits finding)
-                ctx.oracle["failures"] += 1
-                ctx.failure("oracle", "[derived] %s raised %s: %s" % (c["derived"]["how"], ro["ctor_exc"], ro.get("msg")), c,
-                            classes=[CL_WITHLIMITS], impl=ro)
+                ctx.hist("outcome:derive", ro["ctor_exc"])          # empty intersection of limits: refused, as it must be
             else:
                 ctx.oracle["failures"] += 1
                 ctx.failure("oracle", "constructor / derivation raised: %s" % json.dumps(ro)[:300], c, impl=ro)
+                if c.get("pin"):
+                    pin_fail.append((c["pin"], "derivation raised %s" % ro["ctor_exc"]))
             continue
         if c.get("expect_ctor_exc"):
             ctx.oracle["failures"] += 1
@@ -1027,11 +1042,11 @@ def run(ctx):
             ctx.oracle["failures"] += 1
             ctx.hist("oracle-failure", kind_ + ("/" + "+".join(classes) if classes else ""))
             # a known finding explains only the failure kinds it is about
-            allowed = {CL_RATIO: ("must-return", "random-raises", "unit-range", "unit-value", "inverse"),
-                       CL_TAIL: ("must-return", "random-raises", "quantile", "random-quantile", "inverse"),
-                       CL_LASTBIT: ("monotone-last-bit",),
-                       CL_WITHLIMITS: ("must-return", "quantile")}
+            allowed = {CL_TAIL: ("must-return", "random-raises", "quantile", "random-quantile", "inverse"),
+                       CL_LASTBIT: ("monotone-last-bit",)}
             eff = [cl for cl in classes if kind_ in allowed.get(cl, ())]
+            if c.get("pin") and not eff:
+                pin_fail.append((c["pin"], "[%s] %s" % (kind_, msg)))
             ctx.failure("oracle", "[%s] %s" % (kind_, msg), c, classes=eff, impl={"failures": [list(f) for f in fails[:4]]})
         cc = coq_case(c, ro)
         if cc:
@@ -1041,6 +1056,13 @@ def run(ctx):
             small = {"kind": c["kind"], "prior": c.get("prior"), "derived": c.get("derived"), "priors": c.get("priors"),
                      "n_obs": len(c.get("obs", [])), "first_obs": c.get("obs", [])[:3], "us": c.get("us")}
             ctx.sample({k: v for k, v in small.items() if v is not None}, limit=8)
+    # former findings must stay repaired: their pinned cases pass without a single oracle failure (failures explained by
+    # a finding that is still open do not count) and, below, agree with the model
+    for sig in sorted(set(PINS.values()) | {"with-limits-keeps-message"}):
+        bad_pins = [p for p in pin_fail if p[0] == sig]
+        n = sum(1 for c in cases if c.get("pin") == sig)
+        ctx.obligation("regression:" + sig, "regression", not bad_pins and (n > 0 or bool(ctx.replay)),
+                       "%d pinned cases pass" % n if not bad_pins else "; ".join(p[1] for p in bad_pins)[:600])
     if os.path.exists(os.path.join(common.COQ, "C02", "Model.vo")):
         hdr = ctx.header(["Common.PyFloat", "Model"])
         bad, log = ctx.eval_cases(hdr, "case", "check_case", coq_cases, shard=40 if ctx.tier == "thorough" else 20)
@@ -1079,8 +1101,10 @@ MANIFEST = {
             "the running code, plus a direct property oracle with stdlib references that demands a return wherever the declared "
             "quantile lies inside the limits, on every generated case",
     "note": "Trusted: Coq kernel + vm_compute + stdlib Reals axioms, the harness, scipy/numpy special functions (hypotheses over R; "
-            "oracle tables in the correspondence). The theorems are over exact reals: in binary64 the property fails in four "
-            "recorded ways (known findings with float witnesses: log-uniform ranges whose ratio overflows, lower-tail cancellation "
-            "of the normal quantile below 6e-8, last-bit non-monotonicity, with_limits keeping the old message). JAX path not covered.",
+            "oracle tables in the correspondence). The theorems are over exact reals: in binary64 the property still fails in two "
+            "recorded ways (known findings with float witnesses: lower-tail cancellation of the normal quantile below 6e-8, "
+            "last-bit non-monotonicity); three former findings are repaired in /repo (rounding after the limit check 9c8aefe, "
+            "log-uniform ratio overflow e638353, with_limits keeping the old message d755794) and pinned by regression "
+            "obligations. JAX path not covered.",
     "technique": "machine-checked proof in Coq (generic model instantiated over R, Q and binary64) + vm_compute correspondence",
 }
